@@ -427,7 +427,7 @@ func (prop) Generate(rng *core.Rand, tier string, emit func(string)) {
 	}
 	hr, pr, rr, mr, nr := rng.Fork(), rng.Fork(), rng.Fork(), rng.Fork(), rng.Fork()
 	vr, sr, qr := rng.Fork(), rng.Fork(), rng.Fork()
-	wr := rng.Fork()
+	wr, xr := rng.Fork(), rng.Fork()
 	for c := 0; c < n; c++ {
 		switch {
 		case c%100 == 99:
@@ -438,6 +438,8 @@ func (prop) Generate(rng *core.Rand, tier string, emit func(string)) {
 			emit(genPathRECase(rr))
 		case c%20 == 13:
 			emit(genPathPair(pr))
+		case c%50 == 41:
+			emit(genRedirCase(xr))
 		case c%50 == 21:
 			emit(genSrvCase(wr))
 		case c%25 == 9:
